@@ -6,6 +6,27 @@ The model is the provider chain of authorizer.rs as written (`KM.Http.authentica
 provider's `login`/`authenticate`, and the session cache with symbolic AEAD (`KM.Http.Session`).
 Cryptographic strength (ChaCha20-Poly1305, scrypt) is assumed: a token verifies under a key iff it
 was sealed under that key (term equality), hashes are equal iff their inputs are.
+
+Clause → theorem (property text of C20 in /verif/properties.jsonl)
+
+| clause of the property                                                        | theorems |
+|---|---|
+| a request acts as a user only if it carries the configured admin token verbatim (admin role) | `authenticates_iff` (first disjunct of `BearerAccepts`), `admin_token_verbatim` |
+| … or a bearer token that this instance's login issued for a configured user name and password (the role configured for that user) | `authenticates_iff`, `issued_genuine`, `session_identity_is_configured` (under the AEAD assumption `Unforgeable`), `issued_token_authenticates` |
+| … or arrives over the Unix socket from a system user mapped in the configuration (that role) | `authenticates_iff` (`PeerAccepts`, with the fall-through explicit), `authenticates_tcp` |
+| login succeeds exactly for a configured user with the matching password whose role permits login | `login_iff`, `login_identity` (full strength), `login_denied_iff`, `login_trichotomy` |
+| every other credential – unknown user, wrong password                         | `login_unknown_user`, `login_wrong_password` |
+| … truncated, bit-flipped or re-encoded token, token issued under another instance's key – authenticates nobody | `mutated_token_rejected`, `mutations_rejected`, `not_issued_rejected`, `cache_key_is_whole_token`, `injective_key_sound` / `noninjective_key_unsound` (a cache keyed by less than the whole token) |
+| … and is refused on every route that requires a permission                    | `refused_everywhere`, `mutated_token_refused_everywhere`, `request_decision` |
+| only as the configured identity (title)                                       | `actor_is_identity`, `login_identity`, `session_identity_is_configured` |
+| quantifier: every bearer string derived by mutation, arbitrary strings        | the theorems above range over every `Wire` |
+| quantifier: every name/password pair incl. case, white space, normalisation   | `login_iff`, `login_identity` for an arbitrary normalisation function |
+| quantifier: every user/role configuration, both transports                    | every theorem is for an arbitrary `Config`; `Transport` is a parameter |
+
+Session lifetime (not demanded by the property text; stated as the code is):
+| expiry      | `session_status_spec`; the config-file provider issues sessions without expiry and never asks: `config_file_sessions_do_not_expire`, `issued_token_authenticates` (after every later history) |
+| logout      | `logout_changes_no_decision`, `logout_drops_entry_of_invalid_token` |
+| the cache   | part of the model (`SessState.cache`); `cache_sound_invariant`, `authenticate_state_irrelevant`: a cached session is only ever what the token itself decodes to, so it cannot outlive the token's own validity, whatever is swept, logged out or restarted |
 -/
 import KrillModel.Http.AuthLemmas
 import KrillModel.Http.AuthPinned
@@ -280,6 +301,149 @@ theorem session_identity_is_configured (norm : String → String) (cfg : Config)
     rw [hr'] at hr
     exact ⟨e, hu, hr⟩
 
+/-! ## Session lifetime: expiry, logout, and the cache -/
+
+/-- With a sound cache, what a request authenticates as does not depend on the session state at
+all: not on what is cached, not on what was swept, logged out or issued. -/
+theorem authenticate_state_irrelevant (cfg : Config) (st1 st2 : SessState)
+    (h1 : CacheSound cfg.key st1) (h2 : CacheSound cfg.key st2) (h : Header) (t : Transport) :
+    (authenticate cfg st1 h t).1 = (authenticate cfg st2 h t).1 := by
+  have hb : bearerStage cfg st1 h = bearerStage cfg st2 h := by
+    unfold bearerStage primaryProvider
+    cases cfg.authType with
+    | adminToken => rfl
+    | configFile =>
+      simp only [configFileProvider_fst cfg st1 h h1, configFileProvider_fst cfg st2 h h2]
+  rw [authenticate_fst, authenticate_fst, hb]
+
+/-- **A cached session never outlives its token.**  After every history of requests, logins,
+logouts and sweeps, every cache entry is exactly what its token decodes to without the cache;
+consequently emptying the cache (restart, sweep, logout) changes no decision, and keeping an entry
+never extends one. -/
+theorem cache_never_outlives (norm : String → String) (cfg : Config) (ops : List Op) :
+    (∀ e ∈ (run norm cfg ops).cache, decodeFresh cfg.key e.1 = some e.2) ∧
+    ∀ h t, (authenticate cfg (run norm cfg ops) h t).1 = (authenticate cfg {} h t).1 :=
+  ⟨cache_sound_invariant norm cfg ops, fun h t =>
+    authenticate_state_irrelevant cfg _ _ (cache_sound_invariant norm cfg ops)
+      (by intro e he; cases he) h t⟩
+
+/-- Logout (of any bearer string) changes no later decision: the config-file provider's tokens are
+self-contained, logging out only drops the cache entry (and a valid token is put straight back by
+the authentication the logout handler performs for its log line). -/
+theorem logout_changes_no_decision (cfg : Config) (st : SessState) (hs : CacheSound cfg.key st)
+    (hl h : Header) (t : Transport) :
+    (authenticate cfg (logoutConfigFile cfg st hl) h t).1 = (authenticate cfg st h t).1 :=
+  authenticate_state_irrelevant cfg _ _ (logout_sound cfg st hl hs) hs h t
+
+/-- After logging out with a string that is not a valid token of this instance, no cache entry is
+keyed by that string. -/
+theorem logout_drops_entry_of_invalid_token (cfg : Config) (st : SessState) (w : Wire)
+    (hw : decodeFresh cfg.key w = none) :
+    ∀ e ∈ (logoutConfigFile cfg st (.bearer w)).cache, e.1 ≠ w := by
+  have hrem : ∀ e ∈ (st.remove w).cache, e.1 ≠ w := by
+    intro e he
+    simp only [SessState.remove, List.mem_filter, bne_iff_ne, ne_eq] at he
+    exact he.2
+  have hlook : (st.remove w).cache.lookup w = none := by
+    cases hl : (st.remove w).cache.lookup w with
+    | none => rfl
+    | some s => exact absurd rfl (hrem _ (lookup_mem _ _ _ hl))
+  simp only [logoutConfigFile, configFileProvider, decode, hlook, hw]
+  exact hrem
+
+/-- `ClientSession::status`, for all start times, maximum ages and instants: without expiry always
+active; otherwise (from the start time on) expired iff older than the maximum age, and never
+"active" beyond half of it. -/
+theorem session_status_spec (start now : Nat) :
+    sessionStatus start none now = some .active ∧
+    ∀ maxAge, start ≤ now →
+      (sessionStatus start (some maxAge) now = some .expired ↔ now - start > maxAge) ∧
+      (sessionStatus start (some maxAge) now = some .active ↔ now - start ≤ maxAge / 2) ∧
+      (sessionStatus start (some maxAge) now = some .needsRefresh ↔
+        maxAge / 2 < now - start ∧ now - start ≤ maxAge) := by
+  refine ⟨rfl, ?_⟩
+  intro maxAge hle
+  have hnl : ¬ now < start := Nat.not_lt.mpr hle
+  have hhalf : maxAge / 2 ≤ maxAge := Nat.div_le_self _ _
+  simp only [sessionStatus, hnl, if_false]
+  by_cases h1 : now - start > maxAge
+  · have h2 : now - start > maxAge / 2 := Nat.lt_of_le_of_lt hhalf h1
+    have h3 : ¬ now - start ≤ maxAge / 2 := Nat.not_le.mpr h2
+    have h4 : ¬ now - start ≤ maxAge := Nat.not_le.mpr h1
+    simp [h1, h2, h3, h4]
+  · have h4 : now - start ≤ maxAge := Nat.le_of_not_gt h1
+    by_cases h2 : now - start > maxAge / 2
+    · have h3 : ¬ now - start ≤ maxAge / 2 := Nat.not_le.mpr h2
+      simp [h1, h2, h3, h4]
+    · have h3 : now - start ≤ maxAge / 2 := Nat.le_of_not_gt h2
+      simp [h1, h2, h3]
+
+/-- The config-file provider's sessions carry no expiry: at every instant their status is
+"active". -/
+theorem config_file_sessions_do_not_expire (start now : Nat) :
+    sessionStatus start configFileExpiresIn now = some .active := rfl
+
+/-- **A token issued by `login` authenticates as the logged-in user with that user's configured role
+after every later history** – any number of requests, other logins, sweeps and logouts, including
+the logout of this very token – on both transports.  (Sessions of the config-file provider end only
+with the instance key.) -/
+theorem issued_token_authenticates (norm : String → String) (cfg : Config)
+    (hcf : cfg.authType = .configFile) (ops1 ops2 : List Op) (basic : Option (String × String))
+    (id role : String) (tok : Wire)
+    (hlogin : (loginConfigFile norm cfg (run norm cfg ops1) basic).1 = .ok id role tok)
+    (t : Transport) :
+    ∃ r, cfg.roles.lookup role = some r ∧
+      (authenticate cfg (run norm cfg (ops1 ++ [.login basic] ++ ops2)) (.bearer tok) t).1 = .ok id r := by
+  obtain ⟨raw, pw, u, r, _, _, _, _, hrole, hr, _, htok⟩ :=
+    (login_ok_iff norm cfg _ basic id role tok).mp hlogin
+  refine ⟨r, by rw [hrole]; exact hr, ?_⟩
+  rw [authenticates_iff cfg hcf _ (cache_sound_invariant norm cfg _)]
+  left
+  refine ⟨tok, rfl, Or.inr ⟨by rw [htok]; simp, (run norm cfg ops1).nonce, id, role, htok, rfl, ?_⟩⟩
+  rw [hrole]; exact hr
+
+/-! ## The cache key is the whole token -/
+
+/-- A cache hit is a hit on exactly the presented string: the model's (and the code's
+`HashMap<Token, _>`) look-up compares whole tokens. -/
+theorem cache_key_is_whole_token (st : SessState) (w : Wire) (s : Session)
+    (h : st.cache.lookup w = some s) : (w, s) ∈ st.cache :=
+  lookup_mem _ _ _ h
+
+/-- With a cache keyed by an injective function of the token (the identity in the code) the cache
+is invisible, for every cache content that earlier decodes can have produced. -/
+theorem injective_key_sound {κ : Type} [DecidableEq κ] (k : Wire → κ)
+    (hinj : ∀ a b, k a = k b → a = b) (key : Nat) (cache : List (κ × Session))
+    (hs : ∀ e ∈ cache, ∃ w, k w = e.1 ∧ decodeFresh key w = some e.2) (w : Wire) :
+    (decodeK k key cache w).1 = decodeFresh key w ∧
+    ∀ e ∈ (decodeK k key cache w).2, ∃ w', k w' = e.1 ∧ decodeFresh key w' = some e.2 := by
+  unfold decodeK
+  cases hl : cache.lookup (k w) with
+  | some s =>
+    obtain ⟨w', hk, hd⟩ := hs _ (lookup_mem _ _ _ hl)
+    have : w' = w := hinj _ _ hk
+    subst this
+    exact ⟨hd.symm, hs⟩
+  | none =>
+    cases hd : decodeFresh key w with
+    | none => exact ⟨rfl, hs⟩
+    | some s =>
+      refine ⟨rfl, ?_⟩
+      intro e he
+      simp only [List.mem_cons] at he
+      rcases he with rfl | he
+      · exact ⟨w, rfl, hd⟩
+      · exact hs e he
+
+/-- With a key that is **not** injective – a prefix of the token, as in the seeded change of round 1 –
+the cache is unsound: once a genuine token has been decoded, any string with the same key (the same
+first characters, the rest damaged) is accepted as the same session. -/
+theorem noninjective_key_unsound {κ : Type} [DecidableEq κ] (k : Wire → κ) (key : Nat)
+    (w1 w2 : Wire) (s : Session) (hk : k w1 = k w2) (h1 : decodeFresh key w1 = some s)
+    (_h2 : decodeFresh key w2 = none) :
+    (decodeK k key (decodeK k key [] w1).2 w2).1 = some s := by
+  simp [decodeK, h1, hk]
+
 /-! ## `mutated_token_rejected` -/
 
 /-- A bearer string that is neither the admin token nor the canonical encoding of a payload sealed
@@ -465,6 +629,62 @@ theorem login_denied_iff (norm : String → String) (cfg : Config) (st : SessSta
     subst hb
     simp [loginConfigFile, hu, ← hh, hr, hal]
 
+/-- An unknown (normalised) user name, or a password whose hash is not the stored one, is answered
+401 – whatever else the configuration contains. -/
+theorem login_unknown_user (norm : String → String) (cfg : Config) (st : SessState)
+    (raw pw : String) (h : cfg.users.lookup (norm raw) = none) :
+    loginConfigFile norm cfg st (some (raw, pw)) = (.invalid, st) := by
+  simp [loginConfigFile, h]
+
+theorem login_wrong_password (norm : String → String) (cfg : Config) (st : SessState)
+    (raw pw : String) (u : UserEntry) (h : cfg.users.lookup (norm raw) = some u)
+    (hw : u.hash ≠ ⟨norm pw, norm raw, u.salt⟩) :
+    loginConfigFile norm cfg st (some (raw, pw)) = (.invalid, st) := by
+  have : (⟨norm pw, norm raw, u.salt⟩ : HashTerm) ≠ u.hash := fun e => hw e.symm
+  simp [loginConfigFile, h, this]
+
+/-- Login answers 200 with a token, 403, or 401 – and 401 exactly when neither of the two
+characterisations (`login_iff`, `login_denied_iff`) applies. -/
+theorem login_trichotomy (norm : String → String) (cfg : Config) (st : SessState)
+    (basic : Option (String × String)) :
+    (∃ id role tok, (loginConfigFile norm cfg st basic).1 = .ok id role tok) ∨
+    (loginConfigFile norm cfg st basic).1 = .denied ∨
+    (loginConfigFile norm cfg st basic).1 = .invalid := by
+  cases h : (loginConfigFile norm cfg st basic).1 with
+  | ok id role tok => exact Or.inl ⟨id, role, tok, rfl⟩
+  | denied => exact Or.inr (Or.inl rfl)
+  | invalid => exact Or.inr (Or.inr rfl)
+
+/-! ## `request_decision`: credentials to decision -/
+
+/-- **End to end.**  For every configuration (arbitrary users, arbitrary role definitions, arbitrary
+socket mapping), every reachable session state, every `Authorization` header and transport, every
+row of the route table and every path instantiation: the handler runs iff the row allows it and
+either requires nothing, or the credentials are genuine for some identity (`authenticates_iff`) whose
+role's permissions contain every required (permission, resource) pair. -/
+theorem request_decision (cfg : Config) (hcf : cfg.authType = .configFile) (st : SessState)
+    (hs : CacheSound cfg.key st) (h : Header) (t : Transport) (rt : Route) (hrt : rt ∈ routes)
+    (segs : List String) :
+    respond cfg.testbed (authenticate cfg st h t).1 rt segs = .served ↔
+      (rt.testbedOnly = true → cfg.testbed = true) ∧ rt.fin.runs = true ∧
+      (rt.gates = [] ∨ ∃ id role,
+        ((∃ w, h = .bearer w ∧ BearerAccepts cfg w id role) ∨
+         ((∀ w, h = .bearer w → ∀ id' role', ¬ BearerAccepts cfg w id' role') ∧
+           PeerAccepts cfg t id role)) ∧
+        ∀ q ∈ C13.requires rt segs, ∃ res, q.2 = some res ∧ q.1 ∈ role.perms res) := by
+  rw [(C13.decision_iff cfg.testbed _ rt hrt segs).1]
+  constructor
+  · intro ⟨h1, h2, h3⟩
+    refine ⟨h1, h2, ?_⟩
+    rcases h3 with h3 | ⟨id, role, ha, hq⟩
+    · exact Or.inl h3
+    · exact Or.inr ⟨id, role, (authenticates_iff cfg hcf st hs h t id role).mp ha, hq⟩
+  · intro ⟨h1, h2, h3⟩
+    refine ⟨h1, h2, ?_⟩
+    rcases h3 with h3 | ⟨id, role, ha, hq⟩
+    · exact Or.inl h3
+    · exact Or.inr ⟨id, role, (authenticates_iff cfg hcf st hs h t id role).mpr ha, hq⟩
+
 /-! ## `actor_is_identity` -/
 
 /-- The actor handed to the server operations (and recorded in the audit log of an accepted
@@ -532,5 +752,23 @@ example :
     Unforgeable exCfg (run id exCfg [.login (some ("alice", "pw"))])
       (.sealed true 7 0 (.session "alice" "r1")) := by
   intro n pt _; decide
+
+/-- Lifetime in action: alice's token still authenticates after she logged out, after a sweep that
+empties the cache and after another login; a prefix-keyed cache would accept a damaged copy (the
+hypotheses of `noninjective_key_unsound` are satisfiable), the whole-token key does not. -/
+example :
+    let tok := Wire.sealed true 7 0 (.session "alice" "r1")
+    let st := run id exCfg [.login (some ("alice", "pw")), .logout (.bearer tok), .sweep (fun _ => false),
+      .login (some ("alice", "pw")), .auth (.bearer (.text "dmg")) .tcp]
+    (authenticate exCfg st (.bearer tok) .tcp).1 = .ok "alice" exRole ∧
+    (authenticate exCfg st (.bearer (.text "dmg")) .tcp).1 = .none ∧
+    st.cache.length = 1 ∧
+    -- a key function that only looks at "the first characters": every text and every token collide
+    (decodeK (fun _ => 0) 7 (decodeK (fun _ => 0) 7 [] tok).2 (.text "dmg")).1 = some ⟨"alice", "r1"⟩ ∧
+    (decodeK id 7 (decodeK id 7 [] tok).2 (.text "dmg")).1 = none ∧
+    sessionStatus 100 (some 60) 131 = some .needsRefresh ∧
+    sessionStatus 100 (some 60) 161 = some .expired ∧
+    sessionStatus 100 (some 60) 99 = none := by
+  decide
 
 end KM.Props.C20
